@@ -4,7 +4,8 @@
    code's tables change. *)
 Require Import GM.model.Base GM.model.Util GM.model.HtmlDecode.
 Require Import GM.gen.Tables GM.model.UtilI.
-Require Import GM.proofs.Finite GM.proofs.EscapeProofs.
+Require Import GM.model.UrlSpec.
+Require Import GM.proofs.Finite GM.proofs.EscapeProofs GM.proofs.UrlProofs.
 From Coq Require Import Lia.
 Open Scope N_scope.
 
@@ -33,3 +34,28 @@ Proof. apply escape_html_no_raw, html_escape_table_std. Qed.
 
 Theorem EscapeHTML_roundtrip v : html_decode (EscapeHTML v) = v.
 Proof. apply html_decode_escape, html_escape_table_std. Qed.
+
+(* ---- URLEscape (escaping stage) on the real tables ---- *)
+Lemma real_url_tables_ok : url_tables_ok url_escape_table utf8len_table = true.
+Proof. vm_compute. reflexivity. Qed.
+Lemma real_plus_safe : url_safe url_escape_table 43 = true.
+Proof. vm_compute. reflexivity. Qed.
+
+Definition all_bytes (v : bytes) : Prop := Forall (fun c => c < 256) v.
+
+Theorem URLEscape_alphabet v : all_bytes v -> forallb url_byte_ok (URLEscapeRaw v) = true.
+Proof. apply url_escape_alphabet, real_url_tables_ok. Qed.
+Theorem URLEscape_percent v : all_bytes v -> percent_ok (URLEscapeRaw v) = true.
+Proof. apply url_escape_percent, real_url_tables_ok. Qed.
+Theorem URLEscape_idempotent v : all_bytes v -> URLEscapeRaw (URLEscapeRaw v) = URLEscapeRaw v.
+Proof. apply url_escape_idempotent; [apply real_url_tables_ok | apply real_plus_safe]. Qed.
+Theorem URLEscape_ascii v : all_bytes v -> valid_utf8 v = true -> Forall (fun b => b < 128) (URLEscapeRaw v).
+Proof. apply url_escape_ascii, real_url_tables_ok. Qed.
+Theorem URLEscape_keeps_triple f total h1 h2 rest :
+  is_hex h1 = true -> is_hex h2 = true ->
+  url_escape_loop url_escape_table utf8len_table (S f) total (37 :: h1 :: h2 :: rest)
+  = 37 :: h1 :: h2 :: url_escape_loop url_escape_table utf8len_table f total rest.
+Proof. apply url_escape_keeps_triple, real_url_tables_ok. Qed.
+Theorem URLEscape_out v : all_bytes v ->
+  UOut url_escape_table utf8len_table (URLEscapeRaw v) \/ (exists c, v = [c] /\ 128 <= c /\ URLEscapeRaw v = [c]).
+Proof. apply url_escape_out; [apply real_url_tables_ok | apply real_plus_safe]. Qed.
